@@ -190,6 +190,7 @@ class Emit:
 
     def __init__(self) -> None:
         self.lines: list[str] = []
+        self.seen: set[int] = set()
 
     def line(self, s: str) -> int:
         self.lines.append(s)
@@ -208,9 +209,12 @@ class Emit:
         k = s[0]
         if k == 'as':
             n = self.line(f"{ind}{var_py(s[1])} = {expr_py(s[2])}")
-            return ['lab', str(n), 'as', str(s[1])] + expr_tok(s[2], n)
+            first = s[1] not in self.seen
+            self.seen.add(s[1])
+            return ['lab', str(n), 'df' if first else 'as', str(s[1])] + expr_tok(s[2], n)
         if k == 'de':
             n = self.line(f"{ind}{var_py(s[1])}: {ty_py(s[2])} = {expr_py(s[3])}")
+            self.seen.add(s[1])
             return ['lab', str(n), 'de', str(s[1])] + ty_tok(s[2]) + expr_tok(s[3], n)
         if k == 'ret':
             n = self.line(f"{ind}return {expr_py(s[1])}")
@@ -246,6 +250,7 @@ class Emit:
         ps = (["self"] if self_param else []) + [f"{var_py(x)}: {ty_py(t)}" for x, t in fd['params']]
         n = self.line(f"{ind}def {name}({', '.join(ps)}) -> {ty_py(fd['ret'])}:")
         fd['_line'] = n
+        self.seen = {0} | {x for x, _ in fd['params']}
         body = self.block(fd['body'], ind + "    ")
         fd['_end'] = len(self.lines)
         out = ['fun', str(n), str(len(fd['params']))]
@@ -1434,7 +1439,7 @@ def minipy_stage(ctx: vlib.Ctx, exe: str, progs: list[tuple[str, dict, list]], t
     stats = ctx.cov.setdefault("minipy", {"programs": 0, "accepted_by_both": 0, "rejected_by_both": 0, "unsupported_units": 0,
                                           "units": 0, "reveals_compared": 0, "error_lines_compared": 0, "unreachable_compared": 0,
                                           "runs_compared": 0, "runs_out_of_fuel": 0, "runs_type_error_both": 0,
-                                          "certified": 0, "accepted_not_certified": 0, "perturbed": 0, "perturbed_rejected": 0})
+                                          "certified": 0, "accepted_not_certified": 0})
     info: dict[str, dict] = {}
     for m, (name, p, calls) in zip(names, progs):
         stats["programs"] += 1
@@ -2176,8 +2181,9 @@ def run(ctx: vlib.Ctx) -> None:
         "object identity is not modelled: == on objects and < on tuples evaluate to 'Unmodelled' in the evaluator and are never generated",
         "hidden can_be_true/can_be_false flags and Literal types of mypy are erased when comparing revealed types "
         "(Literal[0] ~ int, Literal[True] ~ bool); the generator does not re-test the truthiness of the same variable in a nested branch",
-        "expr_sound_partial / stage-1 theorems assume class_table_ok P (follows from Check.class_sem_ok, demanded by check_prog; the implication "
-        "itself is not proved); extraction: ExtrOcamlBasic only; driver tools/ocaml/c01_driver.ml + zio.ml (I/O only)",
+        "the positive theorems are about the CERTIFYING checker (check_prog_certified = mypy's algorithm + validation of merges, loop results "
+        "and isinstance item drops); the harness reports how many model-accepted programs are certified (cov.minipy.certified)",
+        "extraction: ExtrOcamlBasic only; driver tools/ocaml/c01_driver.ml + zio.ml (I/O only)",
     ]
     ctx.prove("C01/Properties.v", ["C01"])
     exe = vlib.build_extracted("c01", "C01/Extract.v", "tools/ocaml/c01_driver.ml")
@@ -2186,7 +2192,7 @@ def run(ctx: vlib.Ctx) -> None:
         if exe is None:
             ctx.broke("C", "extraction", "extracted model does not build")
         else:
-            progs = corpus() + gen_programs(ctx, ctx.n(24, 450), "g")
+            progs = corpus() + gen_programs(ctx, ctx.n(20, 300), "g")
             ctx.log(f"MiniPy: {len(progs)} programs (corpus + generated + perturbed)")
             for k in range(0, len(progs), 240):
                 sub = os.path.join(tmp, f"b{k}")
@@ -2196,12 +2202,13 @@ def run(ctx: vlib.Ctx) -> None:
             st = ctx.cov["minipy"]
             ctx.add("evaluations", st["units"] + st["runs_compared"])
             ctx.cov["distinct_nontrivial"] = st["units"] - st["unsupported_units"] + st["runs_compared"]
+            st["certified_of_model_accepted"] = f"{st['certified']}/{st['certified'] + st['accepted_not_certified']}"
             ctx.log("MiniPy stats: " + json.dumps(st))
             src, toks = emit(progs[3][1])
             ctx.sample({"program": progs[3][0], "source_head": src[:400]})
         wsub = os.path.join(tmp, "wide")
         os.makedirs(wsub)
-        wide_stage(ctx, wsub, ctx.n(30, 600))
+        wide_stage(ctx, wsub, ctx.n(30, 400))
         ctx.log("wide stats: " + json.dumps(ctx.cov.get("wide")))
     finally:
         shutil.rmtree(tmp, ignore_errors=True)
